@@ -85,7 +85,11 @@ def main(tier, replay):
     run.cov['checker_cmd'] = 'python3-vt -m crosshair check --report_all --per_condition_timeout T kernels/k_c15.py:LINE'
     run.cov['trusted_base'] = ['CrossHair 0.0.110', 'z3', 'CPython 3.11', 'own C-literal decoder (kernels/k_c15.py c_unescape)']
     run_kernels(run, tier)
-    return run.finish(EXPLANATION)
+    from checks import c15_l23
+    c15_l23.run_into(run, tier)
+    return run.finish(EXPLANATION.replace('The L3 clause of C15 (emitted comparison constants executed by llsym) is not part of this module.',
+                                          'The L2/L3 clause (checks/c15_l23.py): for every enumerated byte value and spelling in each context the compiled DFA accepts exactly the spelled byte(s) '
+                                          '(z3 over the symbolic input byte) and the emitted C stores exactly the spelled bytes and length for assignments/defaults/char appends (llsym).'))
 
 
 if __name__ == '__main__':
